@@ -264,10 +264,15 @@ pub fn shard_power(def: &E2Def, tier: &str, seed: u64, shard: u32, programs: u32
     'prog: for pi in 0..programs {
         let mut case = cs.new_tree(&mut r).unwrap().current();
         // every third program exercises the manual-persist clause (process crash)
-        let manual_mode = pi % 3 == 2;
-        case.cfg.db_manual_persist = manual_mode;
+        let manual_mode = pi % 5 >= 3;
+        // manual persist at both levels, or only at keyspace level (database default = automatic)
+        let ks_level_only = pi % 5 == 4;
+        case.cfg.db_manual_persist = manual_mode && !ks_level_only;
         for k in &mut case.cfg.ks {
             k.manual_persist = manual_mode;
+        }
+        if ks_level_only {
+            *stats.entry("programs_manual_persist_keyspace_level_only".into()).or_insert(0) += 1;
         }
         for op in &mut case.ops {
             if let Op::CreateKs { cfg, .. } = op {
